@@ -88,7 +88,12 @@ func genFault(t *rapid.T, rpc string) rhpc.Fault {
 	case 3:
 		// the host's chain grows while the renter's signatures are in flight
 		return rhpc.Fault{Kind: "advance", Dir: rhpc.R2H, Index: rapid.IntRange(0, 1).Draw(t, "idx"), A: rapid.IntRange(1, 3).Draw(t, "blocks")}
-	case 4, 5:
+	case 4:
+		if rapid.IntRange(0, 9).Draw(t, "stall") == 0 {
+			return rhpc.Fault{Kind: "stall", Dir: rapid.IntRange(0, 1).Draw(t, "dir"), Index: rapid.IntRange(0, 1).Draw(t, "idx")}
+		}
+		return rhpc.Fault{Kind: "cut", Dir: rapid.IntRange(0, 1).Draw(t, "dir"), Index: rapid.IntRange(0, 1).Draw(t, "idx")}
+	case 5:
 		return rhpc.Fault{Kind: "cut", Dir: rapid.IntRange(0, 1).Draw(t, "dir"), Index: rapid.IntRange(0, 1).Draw(t, "idx")}
 	default:
 		f := rhpc.Fault{Kind: "corrupt", Dir: rapid.IntRange(0, 1).Draw(t, "dir"), Index: rapid.IntRange(0, 1).Draw(t, "idx")}
@@ -740,6 +745,8 @@ func faultLabel(f rhpc.Fault) string {
 		return "txpool"
 	case "cut":
 		return fmt.Sprintf("cut/%s%d", []string{"r2h", "h2r"}[f.Dir&1], f.Index)
+	case "stall":
+		return fmt.Sprintf("stall/%s%d", []string{"r2h", "h2r"}[f.Dir&1], f.Index)
 	case "advance":
 		return fmt.Sprintf("host-chain-advances/%s%d", []string{"r2h", "h2r"}[f.Dir&1], f.Index)
 	default:
@@ -748,6 +755,13 @@ func faultLabel(f rhpc.Fault) string {
 }
 
 var c16Timeout = 30 * time.Second
+
+// A stalled exchange: the client's 2-minute default stream timeout runs on a
+// clock compressed by c16StallScale (0.3 s); the watchdog is ~65 times that.
+const (
+	c16StallScale    = 400
+	c16StallWatchdog = 20 * time.Second
+)
 
 func runC16(c C16Case, cs *kit.CaseStats) error {
 	if c.Fault.Kind == "corrupt" {
@@ -840,7 +854,7 @@ func runC16(c C16Case, cs *kit.CaseStats) error {
 		switch f.Kind {
 		case "dial":
 			w.host.T.FailDial = func(int) error { return rhpc.ErrDial }
-		case "cut", "corrupt", "advance":
+		case "cut", "corrupt", "advance", "stall":
 			mitm = &rhpc.MITM{Ex: rhpc.Exchanges[exchangeOf(c.RPC)], Fault: f, Mutate: rhpc.FormationMutate}
 			mitm.Hook = func() {
 				// the host is blocked reading (or has not started): its chain and
@@ -858,10 +872,50 @@ func runC16(c C16Case, cs *kit.CaseStats) error {
 			dial := w.host.T.Dials()
 			w.host.T.Interpose = mitm.Interpose(dial)
 		}
-		ctx, cancel := context.WithTimeout(context.Background(), c16Timeout)
-		res, callErr := w.attempt(ctx, c)
-		timedOut := ctx.Err() != nil
-		cancel()
+		var res c16Result
+		var callErr error
+		timedOut := false
+		if f.Kind == "stall" {
+			// the caller passes a context WITHOUT a deadline (what every caller
+			// does); the client's own default stream timeout (2 min, here on a
+			// clock compressed by c16StallScale) is then the only thing that
+			// ends a stalled exchange. On the unchanged tree the client always
+			// sets it, so the call must return; not returning within a watchdog
+			// far beyond it is the violation.
+			w.host.T.DeadlineScale = c16StallScale
+			type outcome struct {
+				res c16Result
+				err error
+			}
+			done := make(chan outcome, 1)
+			started := time.Now()
+			go func() {
+				r, e := w.attempt(context.Background(), c)
+				done <- outcome{r, e}
+			}()
+			var hung bool
+			select {
+			case o := <-done:
+				res, callErr = o.res, o.err
+			case <-time.After(c16StallWatchdog):
+				hung = true
+			}
+			mitm.Release()
+			if hung {
+				o := <-done // the released stream lets the call unwind
+				_ = o
+				w.host.T.WaitIdle(c16Timeout)
+				return fmt.Errorf("%s (basis %s, fault %s): the host stalled without closing the stream and the call, made with a context without deadline, had not returned after %v although the client's default stream timeout (2 min, compressed to %v here) should have ended it; the renter's reserved outputs stay locked for as long as the host keeps the connection open (the client set %d stream deadlines)",
+					c.RPC, c.Basis, faultLabel(f), c16StallWatchdog, 2*time.Minute/time.Duration(c16StallScale), w.host.T.DeadlineCalls())
+			}
+			cs.Add("stall-return-ms", time.Since(started).Milliseconds())
+			w.host.T.DeadlineScale = 0
+		} else {
+			ctx, cancel := context.WithTimeout(context.Background(), c16Timeout)
+			res, callErr = w.attempt(ctx, c)
+			timedOut = ctx.Err() != nil
+			cancel()
+		}
 		idle := w.host.T.WaitIdle(c16Timeout)
 		if mitm != nil && idle && !timedOut {
 			mitm.Wait() // the hook may still be growing the host's chain
@@ -894,6 +948,9 @@ func runC16(c C16Case, cs *kit.CaseStats) error {
 			cs.Class("outcome=success")
 			if c.Invalid != "" {
 				return fmt.Errorf("%s succeeded although the parameters (%s) must be rejected by validation", head, c.Invalid)
+			}
+			if f.Kind == "stall" {
+				return fmt.Errorf("HARNESS: %s succeeded although a message was withheld", head)
 			}
 			if spentOnHost {
 				return fmt.Errorf("%s succeeded although the renter's funds are already spent on the host's chain", head)
@@ -943,7 +1000,7 @@ func runC16(c C16Case, cs *kit.CaseStats) error {
 			// the host reached its commit point, the renter did not get (or
 			// rejected) the final message
 			cs.Class("outcome=host-committed-renter-failed")
-			if !(f.Dir == rhpc.H2R && f.Index == 1 && (f.Kind == "cut" || f.Kind == "corrupt")) {
+			if !(f.Dir == rhpc.H2R && f.Index == 1 && (f.Kind == "cut" || f.Kind == "corrupt" || f.Kind == "stall")) {
 				return fmt.Errorf("%s: the client failed (%v) although nothing interfered with the final message, and the host recorded a contract", head, callErr)
 			}
 			hs, ok := w.host.Contractor.LastSet(isRenewal)
@@ -1018,7 +1075,7 @@ func runC16(c C16Case, cs *kit.CaseStats) error {
 
 var c16Assumptions = []string{
 	"real rhp4.Server over the repository's reference Contractor / sector store / settings reporter, real chain.Manager per party on the all-v2 test network, real SingleAddressWallet for host and renter; wallets are advanced synchronously by the harness; blocks are built by the harness (no wall clock, no randomness)",
-	"a fault is one of: the stream dial fails; the connection breaks instead of delivering message k of either direction (either side stops at that boundary); message k of either direction is decoded, changed and re-encoded by a typed man-in-the-middle",
+	"a fault is one of: the stream dial fails; the connection breaks instead of delivering message k of either direction (either side stops at that boundary); message k is withheld and nothing is closed (the other side stalls: the call is then made with a context without deadline and the client's own 2-minute default stream timeout, on a clock compressed 400x, must end it - not returning within 20 s is a violation); message k of either direction is decoded, changed and re-encoded by a typed man-in-the-middle",
 	"'failure' means the host did not reach its commit point (no contract recorded). When the final host message is lost or rejected after the host committed and broadcast, the host keeps the contract (server.go documents this); the check then requires the host's recorded set to confirm and the renter's wallet to be restored",
 	"corruptions of the final message that leave every contract field and signature intact and damage only auxiliary transaction data (basis, input signatures, the renter's own signature copy) are counted under excluded_by_construction: the client has no chain access to detect them; the host's recorded set is confirmed instead",
 	"the stale-unapplied relation (host stored the renter's branch without ever applying it) and funds created on the renter's fork are expected host-side rejections",
@@ -1070,6 +1127,7 @@ func TestC16Enum(t *testing.T) {
 		for dir := 0; dir < 2; dir++ {
 			for idx := 0; idx < 2; idx++ {
 				faults = append(faults, rhpc.Fault{Kind: "cut", Dir: dir, Index: idx})
+				faults = append(faults, rhpc.Fault{Kind: "stall", Dir: dir, Index: idx})
 				for _, m := range rhpc.FormationMuts(exchangeOf(rpc), dir, idx) {
 					faults = append(faults, rhpc.Fault{Kind: "corrupt", Dir: dir, Index: idx, Mut: m})
 				}
